@@ -298,8 +298,9 @@ def run(tier):
             elif mm[0] == "get" and cur is not None:
                 g = mm[1]
                 if g.startswith("nav:"):
-                    # only that the first command of the walk answers; blank navigation speech is C05's business
-                    if g != "nav:ZoomIn":
+                    # that the first command of the walk answers, and the commands that speak the current node without moving (they
+                    # have a node to speak wherever the walk stands); blank navigation speech is C05's business
+                    if g not in ("nav:ZoomIn", "nav:ReadCurrent", "nav:DescribeCurrent"):
                         continue
                     out_events.append({"getter": "must-answer", "res": rr["r"], "visible": cur["visible"], "out": [], "inp": []})
                 else:
